@@ -40,10 +40,8 @@ Proof. intros Hm. destruct p; cbn; auto. apply origin_mono; auto. Qed.
 
 Lemma V_mono s s' p : (fired s <> None -> fired s' <> None) -> V s p -> V s' p.
 Proof.
-  intros Hm. destruct p as [k|k| | | | | | | | | | | | | | | | | | | |]; cbn; auto;
-    try (apply (V0_mono s s' _ Hm)).
-  - destruct k; try (apply (V0_mono s s' _ Hm)).
-  - apply origin_mono; auto.
+  intros Hm. destruct p; try exact (V0_mono s s' _ Hm).
+  destruct p; exact (V0_mono s s' _ Hm).
 Qed.
 
 Lemma fired_mono i s s' : step i s = Some s' -> fired s <> None -> fired s' <> None.
@@ -117,7 +115,7 @@ End Origin.
 (** ------------------------------------------------------------------ forwarders: every named forwarder is in exactly one place *)
 
 Fixpoint pend_of (p : pc) : list N :=
-  match p with Start k | Await k => pend_of k | PLock fs | PLoad fs | PWaitDone fs => fs | _ => [] end.
+  match p with Start k | Await k => pend_of k | PLock fs | PLoad fs | PAppend fs _ | PWaitDone fs => fs | _ => [] end.
 Fixpoint tell_of (p : pc) : list N :=
   match p with Start k | Await k => tell_of k | CTell l _ | PTell l _ => l | _ => [] end.
 
@@ -154,9 +152,9 @@ Definition Inv3 (progs : list prog) (s : st) : Prop :=
   forall x, cnt x (all_fwds progs) =
             (cnt x (flat_map pend_of (thr s)) + cnt x (fwd s) + cnt x (flat_map tell_of (thr s)) + cnt x (map fst (tells s)))%nat.
 
-Lemma step_inv3 progs i s s' : NoDup (all_fwds progs) -> Inv3 progs s -> step i s = Some s' -> Inv3 progs s'.
+Lemma step_inv3 progs i s s' : NoDup (all_fwds progs) -> Inv s -> Inv3 progs s -> step i s = Some s' -> Inv3 progs s'.
 Proof.
-  intros Hnd H3 H.
+  intros Hnd HI H3 H.
   step_inv H; intros x; pose proof (H3 x) as H3x;
     pose proof (cnt_flat_upd pend_of _ _ _ Done x Hp) as Ep0; pose proof (cnt_flat_upd tell_of _ _ _ Done x Hp) as Et0;
     cbn [thr fwd tells set].
@@ -170,7 +168,8 @@ Proof.
                   | H : context [N.eq_dec ?a ?b] |- _ => destruct (N.eq_dec a b)
                   | |- context [N.eq_dec ?a ?b] => destruct (N.eq_dec a b)
                   end; lia].
-  (* PLoad, not closed: Unique is the identity because all forwarders are distinct *)
+  (* PAppend: Unique is the identity because all forwarders are distinct; raw is still forwarders ++ fs *)
+  destruct (i_loc _ HI _ _ Hp) as (_ & -> & _).
   rewrite uniq_nodup; [rewrite count_occ_app; lia| |intros ? _ []].
   apply (NoDup_count_occ N.eq_dec). intros y.
   pose proof (H3 y) as H3y. pose proof (cnt_flat_le pend_of _ _ _ y Hp) as Hle. cbn [pend_of] in Hle.
@@ -194,16 +193,16 @@ Qed.
 Lemma tick_inv3 progs s : Inv3 progs s -> Inv3 progs (tick s).
 Proof. intros H x. exact (H x). Qed.
 
-Lemma run_inv3 progs sched s : NoDup (all_fwds progs) -> Inv3 progs s -> Inv3 progs (run sched s).
+Lemma run_inv3 progs sched s : NoDup (all_fwds progs) -> Inv s -> Inv3 progs s -> Inv3 progs (run sched s).
 Proof.
-  intros Hnd. revert s; induction sched as [|a l IH]; intros s H3; [exact H3|].
-  change (run (a :: l) s) with (run l (do_act s a)). apply IH.
+  intros Hnd. revert s; induction sched as [|a l IH]; intros s HI H3; [exact H3|].
+  change (run (a :: l) s) with (run l (do_act s a)). apply IH; [apply do_act_inv; auto|].
   destruct a as [|i]; cbn; [apply tick_inv3; auto|].
   destruct (step i s) eqn:E; auto. eapply step_inv3; eauto.
 Qed.
 
-Theorem reach_inv3 t progs s : NoDup (all_fwds progs) -> reach t progs s -> Inv3 progs s.
-Proof. intros Hnd [sched <-]. apply run_inv3; auto. apply init_inv3. Qed.
+Theorem reach_inv3 t progs s : forallb prog_ok progs = true -> NoDup (all_fwds progs) -> reach t progs s -> Inv3 progs s.
+Proof. intros Hok Hnd [sched <-]. apply run_inv3; auto; [apply init_inv, Hok|apply init_inv3]. Qed.
 
 
 Lemma all_done_flat (f : pc -> list N) l : f Done = [] -> (forall i p, nth_error l i = Some p -> p = Done) -> flat_map f l = [].
@@ -236,7 +235,7 @@ Theorem forwarders_once t progs s :
   forall x, In x (all_fwds progs) -> told x s = [res_of s].
 Proof.
   intros Hok Hnd Hr Ht Hd x Hx.
-  pose proof (reach_inv _ _ _ Hok Hr) as HI. pose proof (reach_inv3 _ _ _ Hnd Hr x) as H3.
+  pose proof (reach_inv _ _ _ Hok Hr) as HI. pose proof (reach_inv3 _ _ _ Hok Hnd Hr x) as H3.
   pose proof (terminal_all_done _ HI Ht Hd) as Had.
   rewrite (all_done_flat pend_of _ eq_refl Had), (all_done_flat tell_of _ eq_refl Had) in H3.
   destruct (done_final _ HI Hd) as (_ & _ & _ & Hc).
@@ -250,9 +249,9 @@ Proof.
 Qed.
 
 Theorem told_only_named t progs s x :
-  NoDup (all_fwds progs) -> reach t progs s -> told x s <> [] -> In x (all_fwds progs).
+  forallb prog_ok progs = true -> NoDup (all_fwds progs) -> reach t progs s -> told x s <> [] -> In x (all_fwds progs).
 Proof.
-  intros Hnd Hr Hne. pose proof (reach_inv3 _ _ _ Hnd Hr x) as H3.
+  intros Hok Hnd Hr Hne. pose proof (reach_inv3 _ _ _ Hok Hnd Hr x) as H3.
   pose proof (told_length x (tells s)) as Hl. fold (told x s) in Hl.
   apply (count_occ_In N.eq_dec). destruct (told x s); [congruence|]. cbn in Hl. lia.
 Qed.
